@@ -720,4 +720,57 @@ def r9_memoised_results_read_only(a, tier):
     return rep
 
 
-RULES = [r1_cache_key, r2_write_through, r3_inventory, r4_parse_is_readonly, r5_order_dependence, r6_shared_config, r7_publish_last, r8_config_values_not_mutated, r9_memoised_results_read_only]
+def r10_shared_containers_atomic(a, tier):
+    rep = RuleReport(
+        'C10.R10',
+        'containers shared by every thread of the process are builtin containers: a module-level or class-level container that the library '
+        'writes at run time (caches, registries) is read and written by concurrent parses; a builtin dict / set / list does each lookup and '
+        'store in one step, a repository class whose __setitem__ / __getitem__ is Python code (a bounded or ordered dict with an eviction '
+        'loop) does it in several - two threads interleave inside it (KeyError, "dictionary changed size during iteration"). No '
+        'process-wide container is an instance of such a class',
+        floor=5,
+    )
+    n = 0
+
+    def check(q, val, where):
+        nonlocal n
+        n += 1
+        kind = 'builtin'
+        bad = None
+        if isinstance(val, ast.Call):
+            cq = a.p.resolve_expr(where.module if hasattr(where, 'module') else where, val.func)
+            ci = a.p.classes.get(cq)
+            if ci is not None:
+                py = [m_ for c in a.ct.mro(cq) if c in a.p.classes for m_ in a.p.classes[c].methods if m_ in ('__setitem__', '__getitem__', '__delitem__', 'get', 'setdefault')]
+                kind = cq
+                if py:
+                    bad = (cq, sorted(set(py)))
+        rep.add({'process_wide_container': q, 'type': kind, 'python_level_item_access': bad[1] if bad else None})
+        if bad:
+            rep.fail(q, f'shared-nonatomic:{bad[0].split(".")[-1]}', f'{q} is shared by all threads of the process and is a {bad[0].split(".")[-1]}, whose {bad[1]} are Python code '
+                     f'(check, delete, iterate, store): concurrent parses interleave inside it and fail with KeyError / RuntimeError instead of returning the result the call gives alone',
+                     getattr(where, 'relpath', None) or where.module.relpath)
+    for mod in a.p.modules.values():
+        if mod.name.startswith(SCOPE_EXCLUDE):
+            continue
+        for name, val in mod.assigns.items():
+            if name != '__all__' and (_is_mutable_container(val) or (isinstance(val, ast.Call) and a.p.resolve_expr(mod, val.func) in a.p.classes
+                                                                     and any('__setitem__' in a.p.classes[c].methods for c in a.ct.mro(a.p.resolve_expr(mod, val.func)) if c in a.p.classes))):
+                check(f'{mod.name}.{name}', val, mod)
+    for c in a.p.classes.values():
+        if c.module.name.startswith(SCOPE_EXCLUDE):
+            continue
+        for st in c.node.body:
+            if isinstance(st, ast.AnnAssign) and isinstance(st.target, ast.Name) and st.value is not None and norm(st.annotation).startswith('ClassVar') and (
+                    _is_mutable_container(st.value) or isinstance(st.value, ast.Call)):
+                if isinstance(st.value, ast.Call) and not _is_mutable_container(st.value):
+                    cq = a.p.resolve_expr(c.module, st.value.func)
+                    if cq not in a.p.classes:
+                        continue
+                check(f'{c.qualname}.{st.target.id}', st.value, c)
+    if not n:
+        raise AnalysisError('C10.R10: no process-wide container found (anchor moved)')
+    return rep
+
+
+RULES = [r1_cache_key, r2_write_through, r3_inventory, r4_parse_is_readonly, r5_order_dependence, r6_shared_config, r7_publish_last, r8_config_values_not_mutated, r9_memoised_results_read_only, r10_shared_containers_atomic]
